@@ -73,6 +73,7 @@ type OpSpec struct {
 	Client int    `json:"c"`
 	Op     string `json:"op"`
 	A      int    `json:"a,omitempty"`
+	B      int    `json:"b,omitempty"`
 }
 
 func (s *Scn) Int(name string, def int) int {
@@ -151,6 +152,7 @@ type Env struct {
 	unterminated       bool
 	Sites              []string
 	finalized          int
+	held               []heldSlice // slices delivered to the harness and kept by reference (Hold / CheckHeld)
 	expectHarnessPanic bool
 	srcs               []*Src
 	recs               []*Rec
@@ -706,6 +708,11 @@ func (s *Src) Obs() ro.Observable[int] {
 			if s.PanicTeardown {
 				defer func() { panic(ScriptError(85)) }()
 			}
+			if ns := len(s.env.Sc.Sources); ns > 0 && s.ID%ns == 0 && s.Spec.Mode == "sync" && strings.HasPrefix(s.env.Sc.Family, "C07.") {
+				// the teardown a subscribe function returns is user code too: a fault site of C07 (for
+				// synchronous sources it is registered after the stream has ended)
+				defer s.env.Call("src.teardown")
+			}
 			s.Teardowns++
 			s.Live--
 			sub.teardowns++
@@ -776,4 +783,24 @@ func sortedKeys(m map[string]int) []string {
 	}
 	sort.Strings(ks)
 	return ks
+}
+
+type heldSlice struct {
+	ref  []int
+	snap []int
+}
+
+// Hold keeps a delivered slice by reference together with a copy of its content at delivery time.
+func (e *Env) Hold(s []int) {
+	e.held = append(e.held, heldSlice{ref: s, snap: append([]int(nil), s...)})
+}
+
+// CheckHeld reports every kept slice whose content changed after it was delivered.
+func (e *Env) CheckHeld(prop string) {
+	for _, h := range e.held {
+		if fmt.Sprint(h.ref) != fmt.Sprint(h.snap) {
+			e.Violate(prop, "delivered-value-modified", fmt.Sprintf("a slice that was delivered as %v reads %v later on: the operator kept writing into memory it had already handed out", h.snap, h.ref))
+			return
+		}
+	}
 }
